@@ -46,7 +46,12 @@ func raceStatements(r *Rand, g int, n int) []string {
 		case 10:
 			out = append(out, "select key, l2_distance(list(1,2,3), split(value, ',')) as d where key ^= 'rv-' order by d")
 		case 11:
-			out = append(out, fmt.Sprintf("select key where key ^= '%s' & (value ~= '^[0-9]+$' | value in ('a', 'b'))", pfx))
+			if r.Bool() {
+				// a pattern nobody else uses (goroutine prefix, statement number, a random class)
+				out = append(out, fmt.Sprintf("select key, value where key ^= '%s' & (key ~= '^%s[%d-9]$' | value ~= '^(x%d|[0-%d]+)$')", pfx, pfx, r.Intn(6), i, 1+r.Intn(9)))
+			} else {
+				out = append(out, fmt.Sprintf("select key where key ^= '%s' & (value ~= '^[0-9]+$' | value in ('a', 'b'))", pfx))
+			}
 		case 12:
 			if r.Bool() {
 				// the short form without a select list
@@ -117,8 +122,6 @@ func runRACE(e *Env) (*Summary, error) {
 		want := make([][]string, G)
 		for g := 0; g < G; g++ {
 			all[g] = raceStatements(NewRand(e.Seed, "RACEG", uint64(round*100+g)), g, perG)
-			// alone: on a private copy of the seed store
-			want[g] = runSeq(NewRefStore(raceSeedStore()), all[g], batch)
 		}
 		_ = r
 		shared := NewRefStore(raceSeedStore())
@@ -132,6 +135,11 @@ func runRACE(e *Env) (*Summary, error) {
 			}(g)
 		}
 		wg.Wait()
+		// the reference AFTERWARDS (alone, on a private copy of the seed store): whatever process-wide state
+		// the library keeps (caches, registries) is first touched by the concurrent phase, not warmed for it
+		for g := 0; g < G; g++ {
+			want[g] = runSeq(NewRefStore(raceSeedStore()), all[g], batch)
+		}
 		for g := 0; g < G; g++ {
 			for i := range all[g] {
 				col.Eval(1)
